@@ -36,6 +36,13 @@ def Valid (t : TraceInfo) : Prop :=
   8 ≤ t.length ∧ (∃ k, t.length = 2 ^ k ∧ k < 64) ∧ t.metaBytes.length ≤ 65535 ∧ 0 < t.main ∧
   t.main + t.aux ≤ 255 ∧ (t.aux = 0 → t.rands = 0) ∧ t.rands ≤ 255
 
+/-- Does `TraceInfo::new_multi_segment(main, aux, rands, length, meta)` return (no assertion fires)?
+`usize::is_power_of_two` is modelled as `2 ^ log2 n = n`; all arguments are `usize` (< 2^64). -/
+def newOk (t : TraceInfo) : Bool :=
+  decide (8 ≤ t.length) && (2 ^ t.length.log2 == t.length) && decide (t.length < 2 ^ 64) &&
+  decide (t.metaBytes.length ≤ 65535) && decide (0 < t.main) && decide (t.main + t.aux ≤ 255) &&
+  (t.aux != 0 || t.rands == 0) && decide (t.rands ≤ 255)
+
 def encode (t : TraceInfo) : Bytes :=
   leBytes 1 t.main ++ leBytes 1 t.aux ++ leBytes 1 t.rands ++ leBytes 1 t.length.log2 ++
     leBytes 2 t.metaBytes.length ++ t.metaBytes
@@ -118,6 +125,12 @@ def validB (o : ProofOptions) : Bool :=
   decide (o.folding ≤ 16) && pow2B (o.remDeg + 1) && decide (o.remDeg ≤ 255) &&
   decide (1 ≤ o.nparts) && decide (o.nparts ≤ 16) && decide (1 ≤ o.hashRate)
 
+/-- Does `ProofOptions::new(..).with_partitions(nparts, hashRate)` return?  (`ext`, `batchC`,
+`batchD` are enums on the Rust side: always in range there.) -/
+def newOk (o : ProofOptions) : Bool :=
+  o.validB && decide (o.hashRate ≤ 255) && decide (1 ≤ o.ext ∧ o.ext ≤ 3) && decide (o.batchC ≤ 2) &&
+  decide (o.batchD ≤ 2)
+
 def encode (o : ProofOptions) : Bytes :=
   [o.queries, o.blowup, o.grinding, o.ext, o.folding, o.remDeg, o.batchC, o.batchD, o.nparts,
     o.hashRate].map UInt8.ofNat
@@ -165,6 +178,12 @@ def Valid (c : Context) : Prop :=
   c.info.Valid ∧ c.options.Valid ∧ c.info.length < 2 ^ 32 ∧ c.info.length * c.options.blowup < 2 ^ 32 ∧
   0 < c.numConstraints ∧ c.numConstraints < 2 ^ 32 ∧ 0 < c.modulus.length ∧ c.modulus.length < 255 ∧
   c.modulus.any (· != 0) = true
+
+/-- Does `Context::new::<B>(info, options, num_constraints)` return, given constructed parts? -/
+def newOk (c : Context) : Bool :=
+  c.info.newOk && c.options.newOk && decide (c.info.length ≤ 2 ^ 32 - 1) &&
+  decide (c.info.length * c.options.blowup ≤ 2 ^ 32 - 1) && decide (0 < c.numConstraints) &&
+  decide (c.numConstraints ≤ 2 ^ 32 - 1)
 
 def encode (c : Context) : Bytes :=
   c.info.encode ++ lenBytesEnc 1 c.modulus ++ c.options.encode ++ writeUsize c.numConstraints
